@@ -409,8 +409,46 @@ def run_scenario(rep, model, sc, domain):
     return v
 
 
+class _AsC17:
+    """report adapter: the master's lease decisions are judged by C16's checker, reported under C17's first clause"""
+
+    def __init__(self, rep):
+        object.__setattr__(self, "_rep", rep)
+
+    def __getattr__(self, n):
+        return getattr(self._rep, n)
+
+    def __setattr__(self, n, v):
+        setattr(self._rep, n, v)
+
+    @staticmethod
+    def _k(key):
+        return None if key is None else "C17/master-" + key.split("/", 1)[1]
+
+    def finding(self, key, case, detail):
+        return self._rep.finding(self._k(key), case, detail)
+
+    def disagree(self, domain, case, m, i, key=None):
+        return self._rep.disagree(domain, case, m, i, self._k(key))
+
+
+def master_leases(rep, model, r, tier):
+    """sequential part: what the master answers to address requests that reach it through relays of every depth (the
+    concurrent scenarios rarely grow a tree deeper than two levels): the lease must be a valid address below the relay,
+    never the "unassigned" address 0o4444, recorded under the requester's ID"""
+    from . import c16
+    vias = [None, 0o4, 0o44, 0o444, 0o344, 0o144, 0o5, 0o45, 0o445, 0o12, 0o123]
+    evs = []
+    for via in vias:
+        evs.append([("req", via, 10 + k) for k in range(6)])                     # fill the relay's slots, and one more
+    for _ in range(20 if tier == "quick" else 300):
+        evs.append([("req", r.choice(vias), r.randrange(1, 256)) for _ in range(r.randrange(1, 12))])
+    c16.run_events(_AsC17(rep), model, evs, "master-leases", r)
+
+
 def run(rep, model, tier, seed):
     r = common.rng(seed, "c17")
+    master_leases(rep, model, common.rng(seed, "c17/leases"), tier)
     rep.rule = ("concurrent scenarios: 1 master + n joining nodes (n = 1..%d), random distinct IDs 1..255, start offsets spread over "
                 "0 / 5 / 80 / 400 ms, SPI cost 10/20/50 us with 0/2/9 us jitter per bus operation, each node: join, 0-4 of "
                 "{lookups of own/other/unknown/trivial IDs and addresses, send to a joined ID, check_connection}, optionally "
